@@ -568,6 +568,29 @@ def run(ctx: Ctx):
                 handled.add(c.value)
             if i.orelse and not (len(i.orelse) == 1 and isinstance(i.orelse[0], ast.If)):
                 fallbacks.append(i.orelse)
+    # table form: {unit: converter}.get(unit) / [unit] -- the keys are the handled units; a missing key must be an error
+    for d_ in ast.walk(bk[0]):
+        if isinstance(d_, ast.Dict) and d_.keys and all(isinstance(k, ast.Constant) and isinstance(k.value, str) for k in d_.keys) \
+                and len({k.value for k in d_.keys} & units) >= 2:
+            handled |= {k.value for k in d_.keys}
+            holder = getattr(d_, "_parent", None)
+            nm = None
+            if isinstance(holder, (ast.Assign, ast.AnnAssign)):
+                tg = holder.targets[0] if isinstance(holder, ast.Assign) else holder.target
+                nm = tg.id if isinstance(tg, ast.Name) else None
+            for c_ in ast.walk(bk[0]):
+                if isinstance(c_, ast.Call) and isinstance(c_.func, ast.Attribute) and c_.func.attr == "get" and \
+                        ((nm and norm(c_.func.value) == nm) or c_.func.value is d_):
+                    res = getattr(c_, "_parent", None)
+                    rn = None
+                    if isinstance(res, (ast.Assign, ast.AnnAssign)):
+                        tg = res.targets[0] if isinstance(res, ast.Assign) else res.target
+                        rn = tg.id if isinstance(tg, ast.Name) else None
+                    guarded = len(c_.args) == 1 and not c_.keywords and rn is not None and any(
+                        isinstance(i2, ast.If) and norm(i2.test) in (f"{rn} is None", f"not {rn}")
+                        and any(isinstance(x, ast.Raise) for st in i2.body for x in ast.walk(st)) for i2 in ast.walk(bk[0]))
+                    if not guarded:
+                        fallbacks.append([c_])
     silent = [f for f in fallbacks if not any(isinstance(x, ast.Raise) for st in f for x in ast.walk(st))]
     ok = units <= handled and not silent
     ctx.ob("R02.11", f"{apa.qual}: booking duration units handled {sorted(handled)} of {sorted(units)}", (apa, bk[0]), ok,
@@ -579,7 +602,16 @@ def run(ctx: Ctx):
     if not shift_ifs:
         raise AnchorMissing("ResourceScenario.onShift: shift branch not found")
     for i in shift_ifs:
-        lv = [l for l in ast.walk(i) if isinstance(l, ast.For) and "shift.get('leaves'" in norm(l.iter).replace('"', "'")
+        def iter_text(l, i=i):
+            """the loop's iterable with local names replaced by their nearest preceding definition inside the branch"""
+            t = norm(l.iter).replace('"', "'")
+            for nm in {x.id for x in ast.walk(l.iter) if isinstance(x, ast.Name)}:
+                ds = [d for d in ast.walk(i) if isinstance(d, ast.Assign) and len(d.targets) == 1 and isinstance(d.targets[0], ast.Name)
+                      and d.targets[0].id == nm and d.lineno < l.lineno]
+                if ds:
+                    t += " <- " + norm(max(ds, key=lambda d: d.lineno).value).replace('"', "'")
+            return t
+        lv = [l for l in ast.walk(i) if isinstance(l, ast.For) and "shift.get('leaves'" in iter_text(l)
               and any(isinstance(x, ast.Return) and isinstance(x.value, ast.Constant) and x.value.value is False for x in ast.walk(l))]
         # ... and before the branch answers from the shift's hours
         rets = [x for x in ast.walk(i) if isinstance(x, ast.Return)]
